@@ -891,6 +891,52 @@ impl Generator {
     }
 }
 
+/// Verification hook (only with `--cfg a4lg_ffuzzy_verif`; off by default).
+#[cfg(a4lg_ffuzzy_verif)]
+impl Generator {
+    /// Consumes `n` zero bytes in (almost) constant time.
+    ///
+    /// This is defined to be state-for-state identical to calling
+    /// [`update_by_byte(0)`](Self::update_by_byte()) `n` times:
+    ///
+    /// 1.  The first [`RollingHash::WINDOW_SIZE`] zero bytes are really fed
+    ///     (older non-zero bytes may still be in the rolling window and
+    ///     pieces may still end there).
+    /// 2.  After that, the window is all zero, the rolling hash value is 0
+    ///     and `0 + 1` is not a multiple of [`block_size::MIN`]: no piece can
+    ///     end.  The remaining zero bytes only advance the input size, the
+    ///     rolling window index and FNV-1 states of active contexts.
+    ///     Feeding a zero byte to the partial FNV-1 hash is a multiplication
+    ///     by an odd constant whose order divides 64 (for both the table and
+    ///     the arithmetic representation) so `rest % 64` real steps suffice.
+    pub fn verif_feed_zero_bytes(&mut self, n: u64) -> &mut Self {
+        let head = u64::min(n, RollingHash::WINDOW_SIZE as u64);
+        for _ in 0..head {
+            self.update_by_byte(0);
+        }
+        let rest = n - head;
+        if rest == 0 {
+            return self;
+        }
+        debug_assert!(self.0.roll_hash.value() == 0);
+        self.0.input_size = self.0.input_size.saturating_add(rest);
+        for _ in 0..(rest % RollingHash::WINDOW_SIZE as u64) {
+            self.0.roll_hash.update_by_byte(0);
+        }
+        debug_assert!(self.0.roll_hash.value() == 0);
+        for _ in 0..(rest % 64) {
+            if self.0.is_last {
+                self.0.h_last.update_by_byte(0);
+            }
+            for bh1 in &mut self.0.bh_context[self.0.bhidx_start..self.0.bhidx_end] {
+                bh1.h_full.update_by_byte(0);
+                bh1.h_half.update_by_byte(0);
+            }
+        }
+        self
+    }
+}
+
 impl Default for Generator {
     fn default() -> Self {
         Self::new()
